@@ -67,8 +67,8 @@ fn set_str(s: &BTreeSet<usize>) -> String {
 /// Oracle clauses (1), (3), (5: range), (6), (7) for one answer.
 fn check_answer(specs: &[ASpec], functional: bool, target: u8, q: &Query, ans: &Answer, ctx: &mut CaseCtx) -> Result<RefBelief, Fail> {
     let pol = Pol::of(&q.policy);
-    let r = reference(specs, functional, target, q.t, &pol);
-    let what = format!("proposition {target} at day {} under {:?}", q.t, q.policy);
+    let r = reference(specs, functional, target, q.when(), &pol);
+    let what = format!("proposition {target} at {} (day {}{}) under {:?}", q.instant(), q.t, if q.half { " noon" } else { "" }, q.policy);
 
     // (5) range
     for (name, v) in [("support", ans.support), ("opposition", ans.opposition)] {
@@ -301,7 +301,7 @@ fn run_bridge(c: &ExCase, ctx: &mut CaseCtx) -> Result<(), Fail> {
 
 fn run_ex_orders(c: &ExCase, orders: Vec<Vec<usize>>, ctx: &mut CaseCtx) -> Result<(), Fail> {
     let specs = ex_specs(c);
-    let q = Query { t: 0, policy: PolicySel::Default };
+    let q = Query { t: 0, policy: PolicySel::Default, half: false, spelling: 0 };
     let mut first: Option<Answer> = None;
     for (k, perm) in orders.iter().enumerate() {
         // small multisets also go through one-transaction-per-assertion `ASSERT`s
@@ -357,7 +357,7 @@ fn conf_strategy() -> impl Strategy<Value = Option<f64>> {
 }
 
 fn win_strategy(tame: bool) -> impl Strategy<Value = Win> {
-    // boundaries in {-10,-5,5,10}; evaluation days in {-12,-7,0,7,12}
+    // boundaries in {-10,-5,5,10}; evaluation at midnight of days {-12,-7,0,7,12} or at noon of days {0, +-5, +-10 and their neighbours}
     prop_oneof![
         if tame { 60 } else { 16 } => Just(Win::NONE),
         2 => Just(Win { from: Some(-10), until: Some(-5) }), // past
@@ -429,7 +429,25 @@ fn policy_strategy() -> impl Strategy<Value = PolicySel> {
 }
 
 fn query_strategy() -> impl Strategy<Value = Query> {
-    (prop_oneof![5 => Just(0i8), 1 => Just(-12i8), 1 => Just(-7i8), 1 => Just(7i8), 1 => Just(12i8)], policy_strategy()).prop_map(|(t, policy)| Query { t, policy })
+    // midnight of a day that is no window edge, or noon of any day incl. the edge days and their
+    // neighbours (edges are at +-5 and +-10); every spelling of the instant
+    let when = prop_oneof![
+        5 => Just((0i8, false)),
+        1 => Just((-12i8, false)),
+        1 => Just((-7i8, false)),
+        1 => Just((7i8, false)),
+        1 => Just((12i8, false)),
+        2 => Just((0i8, true)),
+        1 => Just((4i8, true)),
+        1 => Just((5i8, true)),
+        1 => Just((-5i8, true)),
+        1 => Just((-6i8, true)),
+        1 => Just((9i8, true)),
+        1 => Just((10i8, true)),
+        1 => Just((-10i8, true)),
+        1 => Just((-11i8, true)),
+    ];
+    (when, policy_strategy(), prop_oneof![3 => Just(0u8), 1 => 1u8..6]).prop_map(|((t, half), policy, spelling)| Query { t, policy, half, spelling })
 }
 
 fn rcase_strategy() -> impl Strategy<Value = RCase> {
@@ -616,7 +634,7 @@ fn run_meta(c: &MCase, ctx: &mut CaseCtx) -> Result<(), Fail> {
     let mut q = c.query.clone();
     normalize_policy(&mut q.policy);
     let pol = Pol::of(&q.policy);
-    let r0 = reference(&base, c.functional, 0, q.t, &pol);
+    let r0 = reference(&base, c.functional, 0, q.when(), &pol);
     // side members: (opposing?, group index, members)
     let sides: Vec<(bool, &Vec<Vec<usize>>)> = vec![(false, &r0.support_groups), (true, &r0.opposition_groups)];
     let side_score = |a: &Answer, opp: bool| if opp { a.opposition } else { a.support };
@@ -739,6 +757,7 @@ pub fn run(r: &mut Runner) {
     r.assume("the harness reference implements the documented projection: eligibility stages (lifecycle, valid time, mode), connected components over shared actor / shared evidence, score = 1 - prod(1 - strongest confidence per group), the accept/material classification table, the constants of the baseline and forecast policies (projection/mod.rs and projection/policy.rs docs, SPECIFICATION §13-14, §21-26)");
     r.assume("only support for a rival value of a functional predicate opposes the target; an assertion without an actor shares an actor with nobody (both stated in projection/mod.rs); whether ineligible rival assertions are listed as excluded, which end of a validity window is inclusive and which reason wins when several exclusion stages apply are not specified and not compared");
     r.assume("evaluation time always comes from FOR TIME; the engine's transaction timestamps are never compared");
+    r.assume("the evaluation instant is spelled as a valid RFC 3339 timestamp in one of six ways (Z, milliseconds, +00:00, +08:00, -05:00 / -12:00, +14:00): the projection is a function of the instant, not of its spelling (seeded change C20-2)");
     r.set_case_timeout_ms(120_000);
     let max = r.tier.pick(3, 5);
     r.sub_enum(
